@@ -1,0 +1,95 @@
+//  Copyright (c) 2026 Couchbase, Inc.
+//
+// Licensed under the Apache License, Version 2.0 (the "License");
+// you may not use this file except in compliance with the License.
+// You may obtain a copy of the License at
+//
+// 		http://www.apache.org/licenses/LICENSE-2.0
+//
+// Unless required by applicable law or agreed to in writing, software
+// distributed under the License is distributed on an "AS IS" BASIS,
+// WITHOUT WARRANTIES OR CONDITIONS OF ANY KIND, either express or implied.
+// See the License for the specific language governing permissions and
+// limitations under the License.
+
+//go:build verif
+
+package scorch
+
+import "sync"
+
+// Instrumentation compiled only with the `verif` build tag: every root swap made by
+// the introducer is reported, with both snapshots rendered as plain data, to a
+// callback registered by the verification harness.
+
+// VerifSegment is one segment of a snapshot: the _id of every local document
+// number and the obsoleted numbers.
+type VerifSegment struct {
+	ID      uint64
+	DocIDs  [][]byte
+	Deleted []uint32
+}
+
+// VerifIntroduction describes one transition of the root snapshot.
+type VerifIntroduction struct {
+	Kind         string // "segment", "merge" or "persist"
+	PreEpoch     uint64
+	PostEpoch    uint64
+	Pre          []VerifSegment
+	Post         []VerifSegment
+	BatchIDs     []string // ids mentioned by the batch (segment introductions)
+	NewSegmentID uint64
+}
+
+var (
+	verifHookLock sync.Mutex
+	verifHook     func(*Scorch, *VerifIntroduction)
+)
+
+// VerifSetIntroductionHook registers the callback (nil to remove it).
+func VerifSetIntroductionHook(f func(*Scorch, *VerifIntroduction)) {
+	verifHookLock.Lock()
+	verifHook = f
+	verifHookLock.Unlock()
+}
+
+func verifDumpSnapshot(is *IndexSnapshot) []VerifSegment {
+	if is == nil {
+		return nil
+	}
+	rv := make([]VerifSegment, 0, len(is.segment))
+	for _, ss := range is.segment {
+		vs := VerifSegment{ID: ss.id}
+		n := ss.segment.Count()
+		for i := uint64(0); i < n; i++ {
+			id, err := ss.segment.DocID(i)
+			if err != nil {
+				id = []byte("?")
+			}
+			vs.DocIDs = append(vs.DocIDs, append([]byte(nil), id...))
+		}
+		if ss.deleted != nil {
+			vs.Deleted = ss.deleted.ToArray()
+		}
+		rv = append(rv, vs)
+	}
+	return rv
+}
+
+func verifIntroduced(s *Scorch, kind string, pre, post *IndexSnapshot, batchIDs []string, newSegmentID uint64) {
+	verifHookLock.Lock()
+	f := verifHook
+	verifHookLock.Unlock()
+	if f == nil {
+		return
+	}
+	ev := &VerifIntroduction{Kind: kind, Pre: verifDumpSnapshot(pre), Post: verifDumpSnapshot(post),
+		BatchIDs: append([]string(nil), batchIDs...), NewSegmentID: newSegmentID}
+	if pre != nil {
+		ev.PreEpoch = pre.epoch
+	}
+	if post != nil {
+		ev.PostEpoch = post.epoch
+	}
+	f(s, ev)
+}
